@@ -19,7 +19,7 @@ var schemes = []string{"http", "https", "ex", "urn"}
 var prefixLabels = []string{"", "p", "q", "ex", "b", "base", "prefix", "g", "graph", "a", "tru", "t", "f", "P", "G", "BASE", "p.q", "é", "p-1", "fals"}
 var boolPrefixLabels = []string{"true", "truex", "false", "falsey", "trueé", "true.1"}
 
-var localNames = []string{"", "a", "b", "c", "s1", "p_2", "o3", "a.b", "a..b", "a.b.c", "a.", "a-", "1a", "a:b", ":", "%41b", "a%4Fz", "%", "%4", "a~b", "~", "-a", ".a",
+var localNames = []string{"", "a", "b", "c", "s1", "p_2", "o3", "a.b", "a..b", "a.b.c", "a.", "a-", "1a", "a:b", ":", "%41b", "a%4Fz", "a%4fz", "%c3%a9", "%", "%4", "a~b", "~", "-a", ".a",
 	"a!$&'()*+,;=/?#@_", "é·x", "x‿y", "true", "false", "a", "𝒳1", "9", "_"}
 
 var bnodeLabels = []string{"a", "b", "b1", "x.y", "n-1", "0", "é", "b0", "a.b-c", "_u", "9z"}
@@ -196,6 +196,10 @@ func (g *dgen) object() obj {
 	case k < 13:
 		return obj{kind: oAnon}
 	case k < 14:
+		if g.depth > 3 {
+			// `()` at a fourth level: the driver's parser of the wire form runs out of fuel on tiny documents
+			return obj{kind: oAnon}
+		}
 		return obj{kind: oColl}
 	case k < 17:
 		return obj{kind: oBnpl, pos: g.pos(1 + g.r.Intn(2))}
@@ -359,6 +363,10 @@ func genDoc(r *vh.Rng, trigDoc, hasBase bool) doc {
 	g := &dgen{r: r, trig: trigDoc, hasBase: hasBase, flat: r.Chance(45), bad: r.Chance(8), boolPfx: r.Chance(3)}
 	for i := 0; i < 3; i++ {
 		g.pool = append(g.pool, vh.Pick(r, prefixLabels))
+	}
+	if r.Chance(2) {
+		// known class pname-prefix-space: U+1680 is PN_CHARS_BASE and white space for unicode.IsSpace
+		g.pool[0] = vh.Pick(r, []string{"\u1680", "\u1680p", "p\u1680", "p\u1680q"})
 	}
 	if g.boolPfx {
 		// the prefix has to be declared for the document to have a denotation
